@@ -127,7 +127,7 @@ def gen_term_ops(rng, sites, cplx):
     return [[d, x] for d, x in ops]
 
 
-def gen_case(rng, cid, flavour, nterms=None, swaps=False, sites=None):
+def gen_case(rng, cid, flavour, nterms=None, swaps=False, sites=None, scale_ok=True):
     sites = sites or gen_sites(rng)
     cplx = rng.random() < 0.3           # complex factors
     cmat = cplx or rng.random() < 0.25  # symbols with complex local matrices (also with purely real factors)
@@ -165,6 +165,18 @@ def gen_case(rng, cid, flavour, nterms=None, swaps=False, sites=None):
         keep = [t for t in terms if not all(o[1] == "I" for o in t["ops"])]
         if keep:
             case["terms"] = keep
+    if scale_ok and rng.random() < 0.3:
+        # overall scale 2^-k (exact in binary64): MPO(c*H) must be exactly c*MPO(H) with the same symbolic structure
+        k = rng.randint(1, 70)
+        c = 2.0 ** -k
+        case["scale_exp"] = k
+        case["algos"] = GRAPH_ALGOS      # QR construction and swap_site are NOT scale invariant on HEAD (pending findings, see notes)
+        swaps = False
+        for t in case["terms"]:
+            t["f"] = [t["f"][0] * c, t["f"][1] * c]
+        case["offset"] = case["offset"] * c
+        if case.get("offset_unit"):
+            case["offset_value"] = case["offset_value"] * c
     if swaps:
         n = len(sites)
         case["swaps"] = [rng.randrange(n - 1) for _ in range(rng.randint(1, 6))]
@@ -180,7 +192,8 @@ def gen_history(rng, hid):
             break
     gsites = [dict(s, x0=0.5) if s["kind"] == "sho" else s for s in sites]     # symbols valid for every x0
     while True:
-        base = gen_case(rng, hid, rng.choice(["int", "dyadic"]), nterms=rng.choice([2, 3, 5, 8, 12]), sites=gsites)
+        base = gen_case(rng, hid, rng.choice(["int", "dyadic"]), nterms=rng.choice([2, 3, 5, 8, 12]), sites=gsites, scale_ok=False)
+        base.pop("algos", None)
         if merged_rows(base, case_view(base)):        # fully cancelling lists (zero operator) are out of scope
             break
     steps = []
@@ -437,7 +450,7 @@ def case_scale(case):
         for x in t["f"]:
             den = max(den, Fraction(x).denominator)
     if case.get("offset_unit"):
-        den = max(den, 2 ** 90)          # converted offsets are arbitrary binary64 numbers: rounded at 2^-90
+        den = max(den, 2 ** (90 + case.get("scale_exp", 0)))   # converted offsets are arbitrary binary64 numbers: rounded at 2^-90 (times the overall scale)
     else:
         den = max(den, Fraction(case.get("offset", 0.0)).denominator)
     assert den & (den - 1) == 0
@@ -897,6 +910,51 @@ for pos in [2, 1]:
     ref = Mpo(Model(nb, []), terms, algo="Hopcroft-Karp").todense()
     assert np.allclose(mpo.todense(), ref)
 '''
+PENDING_CONJ_SWAP = r"""
+import numpy as np
+from renormalizer.model import Model, Op
+from renormalizer.model.basis import BasisHalfSpin
+from renormalizer.mps import Mpo
+basis = [BasisHalfSpin(i) for i in range(3)]
+terms = [Op("sigma_+ sigma_z", [0, 1], 2.0), Op("sigma_+ sigma_x", [1, 2], 3.0)]
+ct = Mpo(Model(basis, []), terms, algo="Hopcroft-Karp").conj_trans()      # tensors conjugated, symbolic_out_ops_list copied unchanged
+nb = [basis[1], basis[0], basis[2]]
+ct.try_swap_site(Model(nb, []), False)
+ref = Mpo(Model(nb, []), terms, algo="Hopcroft-Karp").todense().conj().T
+assert np.allclose(ct.todense(), ref), np.abs(ct.todense() - ref).max()
+"""
+PENDING_QR_SCALE = r"""
+import numpy as np
+from renormalizer.model import Model, Op
+from renormalizer.model.basis import BasisHalfSpin
+from renormalizer.mps import Mpo
+basis = [BasisHalfSpin(i) for i in range(3)]
+def H(c, algo):
+    terms = [Op("sigma_x", 0, 4 * c), Op("sigma_z sigma_z", [0, 1], c), Op("sigma_z sigma_z", [1, 2], 2 * c), Op("sigma_x", 2, 3e-3 * c)]
+    return Mpo(Model(basis, []), terms, algo=algo).todense()
+ref = H(1.0, "Hopcroft-Karp")
+for c in (2.0 ** -27, 2.0 ** -40):                 # 7.5e-9 (term 2.2e-11 silently dropped), 9e-13 (IndexError)
+    assert np.allclose(H(c, "qr") / c, ref, rtol=0, atol=1e-8), c
+"""
+# shrunk from the random stream (seed 11): 4 terms on (SHO, spin, SHO), overall scale 2^-64, one swap of sites (1,2):
+# relative error 0.09 after the swap, no exception
+PENDING_SWAP_CASE = {"id": 247, "sites": [{"kind": "sho", "nbas": 3, "omega": 1.0, "x0": 0.0}, {"kind": "spin"},
+                                          {"kind": "sho", "nbas": 3, "omega": 2.0, "x0": 0.5}],
+                     "terms": [{"f": [4.440892098500626e-15, 0.0], "ops": [["s2", "x"], ["s1", "sigma_z"]]},
+                               {"f": [-4.1359030627651384e-24, 0.0], "ops": [["s2", "x"], ["s0", "x^2"], ["s1", "sigma_z"]]},
+                               {"f": [-5.421010862427522e-20, 0.0], "ops": [["s0", "p^2"], ["s1", "sigma_x"], ["s2", "x^2"]]},
+                               {"f": [4.963083675318166e-23, -0.0], "ops": [["s2", "p^2"], ["s0", "p^2"]]}],
+                     "offset": 0.0, "flavour": "wide", "complex": False}
+# findings reported to the coordinator and awaiting the decision fix / known: they are probed on every run, recorded in
+# the evidence, and turned into KNOWN-FINDING lines as soon as a `known:` line with the key exists
+PENDING = [
+    ("swap-after-conj-trans-stale-symbolic-list", PENDING_CONJ_SWAP,
+     "Mpo.conj_trans (metacopy) copies symbolic_out_ops_list without conjugating it; a later try_swap_site rebuilds the two sites from the stale symbols: silently wrong operator"),
+    ("qr-construction-not-scale-invariant", PENDING_QR_SCALE,
+     "_decompose_qr: the single-column branch filters the un-normalised q = gamma with the ABSOLUTE atol 1e-10: terms below 1e-10 on the last site are silently dropped, all-tiny Hamiltonians raise IndexError"),
+    ("swap-not-scale-invariant", None,
+     "swap_site: _deduplicate_table / _grouped_to_list compare coefficients with the literal 1 of pass-through entries (relative 1e-15 / 1e-10): operators with coefficients below ~1e-13 lose terms silently or fail an assertion"),
+]
 PROBES = [
     ("swap-default-after-qr-construction", PROBE_SWAP_AFTER_QR,
      "Mpo(...) with the default algo='qr' followed by try_swap_site with its default algo: swap_site's assertions (one re-sorted operator per label / check_swap_consistency) fail"),
@@ -935,6 +993,10 @@ def oracle_key(f):
     exc = str(f["detail"]).split(":")[0] if f["kind"] == "exception" else "mismatch"
     if f["stage"] == "history":
         return "history-%s-%s" % (f["algo"], exc)
+    if f["stage"] == "scale":
+        return "scale-invariance-%s" % f["algo"]
+    if f["stage"] == "manyterms":
+        return "many-terms-%s-%s" % (f["algo"], exc)
     if f["stage"] == "swap":
         if f["algo"] == "qr" and exc == "AssertionError":
             return "swap-default-after-qr-construction"
@@ -974,6 +1036,27 @@ def shrink(ctx, case, f, budget_s=40):
             cur["swaps"] = cur["swaps"][:g["nswap"] + 1]
     cur["id"] = case["id"]
     return cur
+
+
+MANY_TERMS_REPRO = r"""
+import itertools, numpy as np
+from renormalizer.model import Model, Op
+from renormalizer.model.basis import BasisHalfSpin
+from renormalizer.mps import Mpo
+n = 7                                              # 5**7 = 78125 distinct terms (> 65535)
+syms = ["I", "sigma_x", "sigma_z", "sigma_+", "sigma_-"]
+mats = np.array([[[1., 0], [0, 1]], [[0, 1.], [1, 0]], [[1., 0], [0, -1]], [[0, 1.], [0, 0]], [[0, 0.], [1, 0]]])
+C = np.random.default_rng(0).integers(1, 1000, size=(5,) * n).astype(float)
+T = C
+for _ in range(n):
+    T = np.tensordot(T, mats, axes=([0], [0]))
+ref = T.transpose(list(range(0, 2 * n, 2)) + list(range(1, 2 * n, 2))).reshape(2 ** n, 2 ** n)
+terms = [Op(" ".join(syms[k] for k in ks), list(range(n)), C[ks]) for ks in itertools.product(range(5), repeat=n)]
+mpo = Mpo(Model([BasisHalfSpin(i) for i in range(n)], []), terms, algo=%r)
+err = np.abs(mpo.todense() - ref).max() / np.abs(ref).max()
+print(len(terms), "terms, relative error", err)
+assert err <= 1e-8
+"""
 
 
 def make_repro_history(h):
@@ -1040,6 +1123,8 @@ def run(ctx):
             dist["single_row"] += 1
         if flavour == "wide":
             case["algos"] = GRAPH_ALGOS
+        if case.get("scale_exp"):
+            dist["overall_scale_cases"] = dist.get("overall_scale_cases", 0) + 1
         case["_view"] = view
         cases.append(case)
         cid += 1
@@ -1233,7 +1318,9 @@ def run(ctx):
     hbyid = {h["id"]: h for h in hists}
     obatches = chunks(ocases, 14)
     hbatches = [hists[k::len(obatches)] for k in range(len(obatches))]
-    oouts = ctx.impl_par("c01_oracle.py", [{"cases": b, "algos": ALGOS, "histories": hb} for b, hb in zip(obatches, hbatches)], timeout=1200)
+    many = {"n": 7, "algos": ["Hopcroft-Karp"] if quick else ALGOS, "seed": ctx.seed}
+    oouts = ctx.impl_par("c01_oracle.py", [{"cases": [], "algos": ALGOS, "many_terms": many}]
+                         + [{"cases": b, "algos": ALGOS, "histories": hb} for b, hb in zip(obatches, hbatches)], timeout=1200, par=15)
     obyid = {c["id"]: c for c in ocases}
     n_hist = 0
     for rc, res, txt in oouts:
@@ -1258,6 +1345,18 @@ def run(ctx):
             reported.add(key)
             ctx.violation(key, "dense oracle only (the theorems of Props/C01.v and the correspondence are unaffected): " + what,
                           {"output_tail": out[-700:]}, found=True, repro=snippet)
+    known_keys = set(k.get("key") for k in ctx.known if k.get("status") == "known" and k.get("property") == ctx.pid)
+    pending_res = {}
+    for key, snippet, what in PENDING:
+        if snippet is None:
+            snippet = make_repro(PENDING_SWAP_CASE, "Hopcroft-Karp", swaps=[1])
+        rc, out = common.sh([common.IMPL_PY, "-c", snippet], env=common.impl_env(), cwd="/", timeout=300)
+        pending_res[key] = rc
+        if rc != 0 and key in known_keys:
+            ctx.violation(key, "dense oracle only: " + what, {"output_tail": out[-700:]}, found=True, repro=snippet)
+        elif rc != 0:
+            ctx.notes.append("PENDING finding (reported, not yet classified; not counted as violation): %s -- %s" % (key, what))
+    stats["pending_probe_exit_codes"] = pending_res
     # ---------------------------------------------------------------- 7. verdicts
     theorem_broken = (not ok_build) or (not ok_props)
     first_found = None
@@ -1274,6 +1373,9 @@ def run(ctx):
         repro = None
         if f.get("history") is not None:
             repro = make_repro_history(f["history"])
+            first_found = first_found or repro
+        if f["stage"] == "manyterms":
+            repro = MANY_TERMS_REPRO % (f["algo"],)
             first_found = first_found or repro
         if c is not None:
             try:
